@@ -13,20 +13,28 @@ Section C20.
   (* Any number of calls, each any program over the shared path memo; any schedule, switching between the individual dict
      operations of Path.from_text; started from any memo state reachable by from_text: every call that has finished holds
      exactly the answer it computes alone, every unfinished call still denotes it, and the memo keeps its invariant. *)
+  (* The theorems hold for BOTH memos glom shares between calls — they are stated for any capacity, with or without the length
+     test, and for any rule about which created values are stored:
+       Path._CACHE             capacity path_cache_max, length test, every Path stored;
+       registry._type_cache    no length test, a failed lookup (UnregisteredTarget) is not stored. *)
+  Variable maxc : Z.
+  Variable lencheck : bool.
+  Variable storable : V -> bool.
+
   Theorem interleaving_equals_isolation : forall (ps : list (@prog V A)) c schedule, Inv create c ->
-    let '(ths, c') := run_schedule create path_cache_max star (map (@TRun V A) ps, c) schedule in
+    let '(ths, c') := run_schedule create maxc star lencheck storable (map (@TRun V A) ps, c) schedule in
     Inv create c' /\ Forall2 (fun ts p => denote create star ts = Some (run_pure create star p)) ths ps.
-  Proof. exact (interleaving_equals_isolation_lemma create path_cache_max star). Qed.
+  Proof. exact (interleaving_equals_isolation_lemma create maxc star lencheck storable). Qed.
 
   Theorem finished_calls_hold_isolated_answers : forall (ps : list (@prog V A)) schedule i a,
-    nth_error (fst (run_schedule create path_cache_max star (map (@TRun V A) ps, empty) schedule)) i = Some (TDone a) ->
+    nth_error (fst (run_schedule create maxc star lencheck storable (map (@TRun V A) ps, empty) schedule)) i = Some (TDone a) ->
     exists p, nth_error ps i = Some p /\ a = run_pure create star p.
-  Proof. exact (done_threads_hold_isolated_answers create path_cache_max star). Qed.
+  Proof. exact (done_threads_hold_isolated_answers create maxc star lencheck storable). Qed.
 
-  (* `return cache[text]` never fails under any interleaving *)
+  (* `return cache[key]` never fails under any interleaving *)
   Theorem no_call_fails_on_the_shared_memo : forall (ps : list (@prog V A)) schedule i,
-    nth_error (fst (run_schedule create path_cache_max star (map (@TRun V A) ps, empty) schedule)) i <> Some TKeyError.
-  Proof. exact (no_thread_fails create path_cache_max star). Qed.
+    nth_error (fst (run_schedule create maxc star lencheck storable (map (@TRun V A) ps, empty) schedule)) i <> Some TKeyError.
+  Proof. exact (no_thread_fails create maxc star lencheck storable). Qed.
 End C20.
 Print Assumptions interleaving_equals_isolation.
 Print Assumptions finished_calls_hold_isolated_answers.
@@ -44,6 +52,14 @@ Print Assumptions reentrant_equals_isolation.
 Example ex_race :
   let create := fun (s : bool) (t : string) => (s, t) in
   let p := Ask "a" (fun v => Ret v) in
-  let '(ths, c) := run_schedule create 5 true ([TRun p; TRun p], empty) [0; 1; 1; 1; 0; 0; 0; 0; 1; 1] in
+  let '(ths, c) := run_schedule create 5 true true (fun _ => true) ([TRun p; TRun p], empty) [0; 1; 1; 1; 0; 0; 0; 0; 1; 1] in
   ths = [TDone (true, "a"); TDone (true, "a")] /\ map fst (c_star c) = ["a"].
+Proof. vm_compute. split; reflexivity. Qed.
+(* the registry protocol: a failed lookup is answered without being stored *)
+Example ex_registry :
+  let create := fun (_ : bool) (k : string) => if String.eqb k "int|iterate" then None else Some k in
+  let p := Ask "int|iterate" (fun v => Ask "dict|get" (fun w => Ret (v, w))) in
+  let '(ths, c) := run_schedule create 0 true false (fun v => match v with Some _ => true | None => false end)
+                     ([TRun p; TRun p], empty) [0; 1; 0; 1; 0; 1; 1; 0; 0; 1; 1; 0] in
+  ths = [TDone (None, Some "dict|get"); TDone (None, Some "dict|get")] /\ map fst (c_star c) = ["dict|get"].
 Proof. vm_compute. split; reflexivity. Qed.
